@@ -93,6 +93,37 @@ def run(ctx):
     configs = [("mp", False), ("mp", True)] + ([] if quick
                                                else [("re", False)])
     pairs = []
+    # ---- two instances on different ground states in one process: results
+    #      of one must not leak into the other (bra side requested on the
+    #      plain ground state first, then the overlap with first-order
+    #      singles) - runs first, before anything else fills the caches
+    ib, ik = NAMES["ph"]
+    tg = get_symbols(ib + ik)
+    try:
+        isr_p = adcgen.IntermediateStates(
+            adcgen.GroundState(adcgen.Operators()), "pp")
+        isr_p.intermediate_state(1, "ph", "bra", ib)
+        isr_p.precursor(1, "ph", "bra", ib)
+        isr_s = adcgen.IntermediateStates(
+            adcgen.GroundState(adcgen.Operators(), first_order_singles=True),
+            "pp")
+        for order in (1, 2):
+            ov = isr_s.overlap_isr(order, "ph,ph", f"{ib},{ik}")
+            label = f"overlap_isr:two-instances:mp+s:pp:ph,ph:{order}"
+            pairs.append(EQ.Pair(Expr(ov, target_idx=tg).expand(),
+                                 Expr(S.Zero, target_idx=tg), tg, label,
+                                 deltas=True))
+            ctx.case(key=label, nontrivial=True, kind="two-instances")
+        s1 = isr_s.overlap_precursor(2, "ph,ph", f"{ib},{ik}")
+        s2 = isr_s.overlap_precursor(2, "ph,ph", f"{ik},{ib}")
+        label = "precursor_symmetric:two-instances:mp+s:pp:ph,ph:2"
+        pairs.append(EQ.Pair(Expr(s1, target_idx=tg, real=True).expand(),
+                             Expr(s2, target_idx=tg, real=True).expand(), tg,
+                             label, deltas=True))
+        ctx.case(key=label, nontrivial=True, kind="two-instances")
+    except Exception as ex:
+        ctx.violation("C04:two-instances-exception",
+                      f"derivation raised {ex!r}", {}, False)
     for part, singles in configs:
         # quick tier with first-order singles: only the symmetry of the
         # lowest-class pp precursor overlap through third order
